@@ -209,10 +209,10 @@ def check_walk(case):
 @st.composite
 def sampled(draw):
     locs = [l for l in data.all_locales() if table(l[0], True) and table(l[0], False)]
-    locale, lang = locs[draw(st.integers(0, len(locs) - 1))]
+    locale, lang = draw(st.sampled_from(locs))
     normalize = draw(st.booleans())
     tab = table(locale, normalize)
-    kind, key, item = tab[draw(st.integers(0, len(tab) - 1))]
+    kind, key, item = draw(st.sampled_from(tab))
     ref = draw(gen.ref_times(1950, 2100))
     ref[6] = 0
     c = {"locale": locale, "lang": lang, "norm": normalize, "kind": kind, "key": key, "item": item, "n": "", "ref": ref}
@@ -227,7 +227,7 @@ def sampled(draw):
             c["unsupported"] = True
             c["phrase"] = None
         else:
-            c["phrase"] = phrases[draw(st.integers(0, len(phrases) - 1))]
+            c["phrase"] = draw(st.sampled_from(phrases))
         c["n"] = n
     return c
 
